@@ -10,6 +10,7 @@
     world `w`, un-starred, names allowed for that world) is a conditional `Φ(c ∪ p) / Φ(p)` of a positive set function
     `Φ pop w` that is total (`Φ ∅ = 1`), depends on its argument as a SET, and is marginalised by summing out a name.
     Instances: a compatible `Family` (Lemmas/TrsoFamEnv), its activated reading.
+  * `SumND e` — every `Sum` node ranges over a duplicate-free list (the model's lists stand for `frozenset`s).
   * `Good S e` — `e` is clean (population-tagged leaves, no `Zero()`, no `QFactor`), every leaf is admissible, every
     `Sum` range is a plain regular variable that may be summed (`S.U`).  All operators of Y0.Model.TrDsl preserve it
     (Lemmas/TrsoVocab, TrsoClean) and it implies positivity of the denotation of every sub-expression.
@@ -96,6 +97,23 @@ end
 /-- `den` of a clean expression is `denL` at the leaves of the environment -/
 theorem den_eq_denL_of_clean (env : Env) (σ' : Val) {e : Expr} (h : Clean e) (σ : Val) :
     den env σ' e σ = denL env.card (envLeaf env σ') e σ := den_eq_denL env σ' e (qfree_of_clean e h) σ
+
+mutual
+/-- every `Sum` ranges over a duplicate-free list of variables (Python: `ranges` is a `frozenset`) -/
+def SumND : Expr → Prop
+  | .prod fs => SumNDList fs
+  | .sum e r => SumND e ∧ r.Nodup
+  | .frac n d => SumND n ∧ SumND d
+  | _ => True
+def SumNDList : List Expr → Prop
+  | [] => True
+  | e :: es => SumND e ∧ SumNDList es
+end
+
+theorem sumNDList_iff (es : List Expr) : SumNDList es ↔ ∀ e ∈ es, SumND e := by
+  induction es with
+  | nil => simp [SumNDList]
+  | cons e es ih => simp [SumNDList, ih]
 
 /-! ### what is assumed about the leaves -/
 
